@@ -129,6 +129,13 @@ func H_C05_Retransmit(v *verifrt.T) {
 	v.Assume(m < size)
 	h1 := v.Version("v1", size)
 	e := newEnv(v)
+	if v.Choose("log-holds-another-name-twice-before", 2) == 1 {
+		// two versions of another file were delivered earlier the same day:
+		// the log a restart reloads has that name twice before a's record
+		e.logger.records = append(e.logger.records,
+			vRecord{name: "e", hash: "hash-e1", size: 3}, vRecord{name: "e", hash: "hash-e2", size: 4})
+		v.Reach("repeated-name-in-log")
+	}
 	v.Assert(e.sendPart("a", "", h1, size, 0, m, "v1") == nil, "C05 part received")
 	v.Assert(e.sendPart("a", "", h1, size, m, size, "v1") == nil, "C05 part received")
 	v.Quiesce()
